@@ -135,6 +135,8 @@ def main(argv):
             for i, ch in enumerate(sc.chunks(tier)):
                 tasks.append(dict(pid=pid, sub=sc.name, tier=tier, seed=seed, shard=i, n=0, chunk=ch))
             continue
+        if sc.kind == "atheris" and tier != "thorough":
+            continue
         total = sc.quick if tier == "quick" else int(sc.thorough * THOROUGH_FACTOR)
         total = max(1, int(total * scale))
         if total <= 0:
